@@ -25,9 +25,11 @@ Lemma Forall2_upd {A} (R : A -> A -> Prop) (f : A -> A) :
   (forall x, R x x) ->
   forall l n, (forall x, nth_error l n = Some x -> R x (f x)) -> Forall2 R l (upd_nth n f l).
 Proof.
-  intros Hr. induction l as [|a l IH]; intros [|n] H; cbn; try constructor; auto.
+  intros Hr. induction l as [|a l IH]; intros [|n] H; cbn; try constructor.
   - apply H. reflexivity.
   - apply Forall2_same. exact Hr.
+  - apply Hr.
+  - apply IH. intros x Hx. apply H. exact Hx.
 Qed.
 
 Lemma Forall2_map_r {A} (R : A -> A -> Prop) (f : A -> A) l :
@@ -149,6 +151,9 @@ Proof. induction 1; intros H2; [exact H2|]. eapply ms_step; [eassumption|auto]. 
 Lemma moves_snoc a b c : moves a b -> move b c -> moves a c.
 Proof. intros H1 H2. eapply moves_trans; [exact H1|apply moves_one; exact H2]. Qed.
 
+Lemma moves_last a b c : move b c -> moves a b -> moves a c.
+Proof. intros H2 H1. eapply moves_snoc; eauto. Qed.
+
 (* ---------------------------------------------------------------- building moves *)
 Lemma move_same s s' : jobs s' = jobs s -> env_eq s s' -> move s s'.
 Proof. intros Hj He. apply MJobs; [exact He|]. rewrite Hj. apply Forall2_same. auto. Qed.
@@ -191,4 +196,555 @@ Proof.
   eapply moves_trans; [apply Hf|apply IH].
 Qed.
 
+
+(* ---------------------------------------------------------------- the handlers *)
+Lemma fresh_apply i so ha lt :
+  fresh (mkjob i KApply true false None false [] [] None so ha lt None 0 0 0 [] 0 0 0 0 None [] []).
+Proof. unfold fresh; cbn. repeat split; try reflexivity; intros; discriminate. Qed.
+
+Lemma moves_do_apply s so ha lo slot : moves s (fst (do_apply s so ha lo slot)).
+Proof.
+  unfold do_apply.
+  destruct (negb (pstate s =? 0)); [apply ms_refl|].
+  destruct ((match slot with Some b => b | None => putlocks s end) && (LaxSem.value (sem s) =? 0)); [apply ms_refl|].
+  cbn [fst].
+  set (s1 := if match slot with Some b => b | None => putlocks s end
+             then with_sem s (sstep' (sem s) Acquire) else s).
+  assert (H1 : move s s1).
+  { unfold s1. destruct (match slot with Some b => b | None => putlocks s end); msame. }
+  eapply ms_step; [exact H1|]. apply moves_one.
+  eapply MAdd; [repeat split|reflexivity|apply fresh_apply].
+Qed.
+
+Lemma moves_do_map s n cs : moves s (fst (do_map s n cs)).
+Proof.
+  unfold do_map. destruct (negb (pstate s =? 0)); [apply ms_refl|]. cbn [fst].
+  eapply ms_step; [|apply moves_one; msame].
+  eapply MAdd; [repeat split|reflexivity|].
+  unfold fresh; cbn. repeat split; try reflexivity; try (intros; discriminate).
+  - destruct (n =? 0); lia.
+  - intros Hc Hn. destruct (n =? 0) eqn:E; lia.
+Qed.
+
+Lemma moves_do_imap s k n : k <> KApply -> k <> KMap -> moves s (fst (do_imap s k n)).
+Proof.
+  intros Hk Hm. unfold do_imap. destruct (negb (pstate s =? 0)); [apply ms_refl|]. cbn [fst].
+  eapply ms_step; [|apply moves_one; msame].
+  eapply MAdd; [repeat split|reflexivity|].
+  unfold fresh; cbn. repeat split; try reflexivity; intros; contradiction.
+Qed.
+
+Lemma moves_do_ack s j i p :
+  (forall x, get_job s j = Some x -> kind x = KApply -> okack (wlist s) x p) ->
+  moves s (fst (do_ack s j i p)).
+Proof.
+  intros Hok. unfold do_ack.
+  set (s0 := with_rst s (Restart.ack (rst s))).
+  eapply ms_step; [apply (move_same s s0); [reflexivity|repeat split]|].
+  destruct (cached s0 j) as [x|] eqn:Hc; [|apply ms_refl].
+  destruct (cached_get _ _ _ Hc) as [Hg Hin].
+  destruct (kind x) eqn:Hk; cbn [fst].
+  - apply moves_one. apply move_set_job. intros y Hy. assert (y = x) by congruence. subst y.
+    right. apply JAck; auto; apply Hok; auto.
+  - destruct i as [i|]; cbn [fst]; [|apply ms_refl].
+    apply moves_one. apply move_set_job. intros y Hy. assert (y = x) by congruence. subst y.
+    right. apply JMapAck; auto.
+  - apply moves_one. apply move_set_job. intros y Hy. assert (y = x) by congruence. subst y.
+    right. apply JImapAck. unfold is_imap. rewrite Hk. reflexivity.
+  - apply moves_one. apply move_set_job. intros y Hy. assert (y = x) by congruence. subst y.
+    right. apply JImapAck. unfold is_imap. rewrite Hk. reflexivity.
+Qed.
+
+Lemma move_bump_counter s x : move s (bump_counter s x).
+Proof.
+  unfold bump_counter. destruct (worker_pids x) as [|p l]; [msame|].
+  destruct (in_pool s p); [|msame]. apply move_set_proc. intros q c H. exact H.
+Qed.
+
+Lemma moves_do_ready s j i (ok : bool) tag :
+  moves s (fst (do_ready s j i (if ok then PValue tag else PExc tag))).
+Proof.
+  unfold do_ready. destruct (cached s j) as [x|] eqn:Hc; [|apply ms_refl]. cbn [fst].
+  destruct (cached_get _ _ _ Hc) as [Hg Hin].
+  set (s1 := bump_counter s x).
+  set (s2 := if ready x then s1 else with_sem s1 (LaxSem.release (sem s1))).
+  assert (H01 : move s s1) by apply move_bump_counter.
+  assert (H12 : move s1 s2) by (unfold s2; destruct (ready x); msame).
+  assert (Hg2 : get_job s2 j = Some x).
+  { rewrite <- Hg. apply get_job_same. unfold s2. destruct (ready x); [apply sj_bump_counter|].
+    eapply sj_trans; [apply sj_bump_counter|apply sj_with_sem]. }
+  eapply ms_step; [exact H01|]. eapply ms_step; [exact H12|]. apply moves_one.
+  apply move_set_job. intros y Hy. assert (y = x) by congruence. subst y.
+  right. apply JSet; [exact Hin|]. intros l. destruct ok; discriminate.
+Qed.
+
+(* ---- supervision *)
+Lemma moves_mark_all_lost s : moves s (mark_all_lost s).
+Proof.
+  apply moves_one. unfold mark_all_lost. apply move_map_jobs. intros x _.
+  destruct (lost_due s x) eqn:Hd; [|left; reflexivity].
+  unfold lost_due in Hd. unfold mark_lost.
+  destruct (worker_lost x) as [[t st]|]; [|left; reflexivity].
+  right. apply JSet; [|intros; discriminate].
+  destruct (incache x); [reflexivity|discriminate].
+Qed.
+
+Definition reap_down (s1 : pool) : pool :=
+  let cleaned := filter (exited s1) (rev (wlist s1)) in
+  let remaining := filter (fun p => negb (exited s1 p)) (wlist s1) in
+  let s := with_wlist s1 remaining in
+  match cleaned with [] => s | _ => down_all s cleaned remaining end.
+
+Lemma join_exited_reap s : fst (join_exited s) = reap_down (mark_all_lost s).
+Proof. unfold join_exited, reap_down. destruct (filter _ (rev _)); reflexivity. Qed.
+
+Lemma move_reap_down s : move s (reap_down s).
+Proof.
+  set (cl := filter (exited s) (rev (wlist s))).
+  set (rem := filter (fun p => negb (exited s p)) (wlist s)).
+  assert (Hw : wlist (reap_down s) = rem).
+  { unfold reap_down. fold cl. destruct cl; reflexivity. }
+  assert (Hp : procs (reap_down s) = procs s).
+  { unfold reap_down. fold cl. destruct cl; reflexivity. }
+  assert (Hn : now (reap_down s) = now s).
+  { unfold reap_down. fold cl. destruct cl; reflexivity. }
+  assert (Ht : t_hard (reap_down s) = t_hard s).
+  { unfold reap_down. fold cl. destruct cl; reflexivity. }
+  apply MReap; auto. clear Hp Hn Ht.
+  assert (Hsplit : forall p, In p (wlist s) -> In p cl \/ In p rem).
+  { intros p Hin. destruct (exited s p) eqn:E.
+    - left. apply filter_In. split; [apply in_rev; rewrite rev_involutive; exact Hin|exact E].
+    - right. apply filter_In. split; [exact Hin|rewrite E; reflexivity]. }
+  unfold reap_down in *. fold cl rem in Hw |- *. destruct cl as [|c0 cl0] eqn:Ecl.
+  - (* nobody to reap *)
+    cbn [jobs with_wlist]. apply Forall2_same. intros x. apply RSame.
+    intros _ _ _ p _ Hin. rewrite Hw. destruct (Hsplit p Hin) as [[]|H]. exact H.
+  - rewrite <- Ecl in *. cbn [jobs down_all map_jobs with_wlist]. apply Forall2_map_r. intros x _.
+    destruct (incache x) eqn:Hc; [|apply RSame; intros; congruence].
+    unfold on_job_down.
+    destruct (acked_by_gone cl rem x) as [p|] eqn:Ha.
+    + unfold acked_by_gone in Ha. apply find_some in Ha. destruct Ha as [Hpin Hgone].
+      destruct (ready x) eqn:Hr; [cbn [fst]; apply RSame; intros; congruence|].
+      destruct (memZ p cl && _) eqn:Ejt; cbn [fst].
+      * apply RTerm; assumption.
+      * destruct (worker_lost x) eqn:Hl; cbn [fst]; [apply RSame; intros; congruence|].
+        change (now (with_wlist s rem)) with (now s).
+        change (exit_of (with_wlist s rem) p) with (exit_of s p).
+        apply (RLost s _ x p); auto.
+        destruct (memZ p cl) eqn:Ecl'.
+        -- left. apply memZ_In in Ecl'. unfold cl in Ecl'. apply filter_In in Ecl'.
+           destruct Ecl' as [Hin He]. apply in_rev in Hin. auto.
+        -- right. split; [|reflexivity]. intros Hin. cbn in Hgone.
+           apply negb_true_iff in Hgone.
+           destruct (Hsplit p Hin) as [H|H]; apply memZ_In in H; congruence.
+    + apply RSame. intros _ _ _ p Hp' Hin. rewrite Hw.
+      pose proof (find_none_all _ _ Ha p Hp') as Hf. cbn in Hf.
+      apply orb_false_iff in Hf. destruct Hf as [_ Hf]. apply negb_false_iff in Hf.
+      apply memZ_In. exact Hf.
+Qed.
+
+Lemma moves_join_exited s : moves s (fst (join_exited s)).
+Proof.
+  rewrite join_exited_reap. eapply moves_snoc; [apply moves_mark_all_lost|apply move_reap_down].
+Qed.
+
+Lemma moves_repopulate : forall fuel i codes s, moves s (fst (repopulate fuel i codes s)).
+Proof.
+  induction fuel as [|f IH]; intros i codes s; cbn [repopulate]; [apply ms_refl|].
+  destruct (negb (pstate s =? 0)); [apply ms_refl|].
+  set (ns := match codes with
+             | [] => false
+             | _ :: _ => match nth_error codes i with Some c => negb (clean_code c) | None => true end
+             end).
+  destruct (if ns then Restart.step (rst s) (now s) else (rst s, false)) as [r raised].
+  destruct raised; [apply moves_one; msame|].
+  destruct (avail_index (with_rst s r)) as [ix|]; [|apply moves_one; msame].
+  eapply ms_step; [apply (move_same s (with_rst s r)); [reflexivity|repeat split]|].
+  eapply ms_step; [apply move_start_worker|apply IH].
+Qed.
+
+Lemma moves_do_tick s : moves s (fst (do_tick s)).
+Proof.
+  unfold do_tick. pose proof (moves_join_exited s) as H0.
+  destruct (join_exited s) as [s1 codes]. cbn [fst] in H0.
+  pose proof (moves_repopulate (Z.to_nat (nprocs s1 - Z.of_nat (length (wlist s1)))) 0 codes s1) as H1.
+  destruct (repopulate (Z.to_nat (nprocs s1 - Z.of_nat (length (wlist s1)))) 0 codes s1) as [s2 r].
+  cbn [fst] in H1.
+  eapply moves_trans; [exact H0|].
+  destruct r; cbn [fst]; try exact H1.
+  eapply moves_snoc; [exact H1|msame].
+Qed.
+
+Lemma move_do_close s : move s (do_close s).
+Proof. unfold do_close. destruct (pstate s =? 0); msame. Qed.
+
+Lemma moves_do_tick_close s k : moves s (fst (do_tick_close s k)).
+Proof.
+  unfold do_tick_close. pose proof (moves_join_exited s) as H0. pose proof (moves_do_tick s) as Ht.
+  destruct (join_exited s) as [s1 codes]. cbn [fst] in H0.
+  destruct (Z.to_nat (nprocs s1 - Z.of_nat (length (wlist s1))) <=? k)%nat; [exact Ht|].
+  pose proof (moves_repopulate (S k) 0 codes s1) as H1.
+  destruct (repopulate (S k) 0 codes s1) as [s2 r]. cbn [fst] in H1.
+  eapply moves_trans; [exact H0|].
+  destruct r; cbn [fst]; try exact H1.
+  eapply moves_snoc; [eapply moves_snoc; [exact H1|apply move_do_close]|msame].
+Qed.
+
+Lemma moves_do_join_shutdown s : moves s (fst (do_join_shutdown s)).
+Proof.
+  unfold do_join_shutdown. destruct (wlist s); cbn [fst]; [apply moves_mark_all_lost|apply moves_join_exited].
+Qed.
+
+(* ---- timeout scan *)
+Lemma moves_on_hard s j x l t :
+  get_job s j = Some x -> kind x = KApply -> time_accepted x = Some t ->
+  timed_out s (Some t) (eff_hard s x) = true -> moves s (on_hard s j x l).
+Proof.
+  intros Hg Hk Ht Hd. unfold on_hard. destruct (ready x) eqn:Hr; [apply ms_refl|].
+  set (s1 := set_job s j (fun x0 => j_add_tmo (apply_set x0 (PTimeLimit (hard x0))) (false, hard x0))).
+  assert (H1 : move s s1).
+  { apply move_set_job. intros y Hy. assert (y = x) by congruence. subst y.
+    right. eapply JHard; eauto. }
+  eapply ms_step; [exact H1|].
+  destruct (owner x) as [p|]; [|apply ms_refl].
+  destruct (in_pool s1 p); [|apply ms_refl].
+  destruct (negb (exit_of (deliver s1 p SIGTERM l) p =? 0) && exited (deliver s1 p SIGTERM l) p).
+  - apply moves_one. apply move_deliver.
+  - eapply ms_step; [apply move_deliver|apply moves_one; apply move_deliver].
+Qed.
+
+Lemma moves_on_soft s j x l : moves s (on_soft s j x l).
+Proof.
+  unfold on_soft. destruct (ready x); [apply ms_refl|].
+  destruct (owner x) as [p|]; [|apply ms_refl].
+  destruct (in_pool s p); [|apply ms_refl].
+  eapply ms_step; [|apply moves_one; apply move_deliver].
+  apply move_set_job. intros y _. right. apply JTmo.
+Qed.
+
+Lemma moves_scan_job l s j : moves s (scan_job l s j).
+Proof.
+  unfold scan_job. destruct (get_job s j) as [x|] eqn:Hg; [|apply ms_refl].
+  destruct (kind x) eqn:Hk; try apply ms_refl.
+  destruct (time_accepted x) as [t|] eqn:Ht; [|apply ms_refl].
+  destruct (timed_out s (Some t) (eff_hard s x)) eqn:Hd.
+  - eapply moves_on_hard; eauto.
+  - destruct (negb (memZ j (dirty s)) && timed_out s (Some t) (eff_soft s x)); [|apply ms_refl].
+    eapply moves_snoc; [apply moves_on_soft|msame].
+Qed.
+
+Lemma moves_do_scan s l : moves s (fst (do_scan s l)).
+Proof.
+  unfold do_scan. destruct (negb (scanner s)); [apply ms_refl|]. cbn [fst].
+  eapply ms_step; [|apply moves_fold; intros; apply moves_scan_job]. msame.
+Qed.
+
+(* ---- task feeding *)
+Lemma moves_feed_tasks : forall fuel i j k fa io s,
+    moves s (fst (fst (feed_tasks fuel i j k fa io s))).
+Proof.
+  induction fuel as [|f IH]; intros i j k fa io s; cbn [feed_tasks]; [apply ms_refl|].
+  destruct (okey_eqb (Some k) fa); [|apply IH].
+  destruct io; [apply ms_refl|].
+  eapply moves_trans; [|apply IH].
+  destruct (cached s j) as [x|] eqn:Hc; [|apply ms_refl].
+  destruct (cached_get _ _ _ Hc) as [Hg Hin].
+  assert (Hone : forall s0, get_job s0 j = Some x ->
+                            move s0 (set_job s0 j (fun x0 => fst (job_set x0 (Some i) PPutFailed)))).
+  { intros s0 H0. apply move_set_job. intros y Hy. assert (y = x) by congruence. subst y.
+    right. apply JSet; [exact Hin|intros; discriminate]. }
+  destruct (kind x); try (apply moves_one; apply Hone; exact Hg).
+  set (s1 := if ready x then s else with_sem s (LaxSem.release (sem s))).
+  assert (H1 : move s s1) by (unfold s1; destruct (ready x); msame).
+  assert (Hg1 : get_job s1 j = Some x) by (unfold s1; destruct (ready x); exact Hg).
+  eapply ms_step; [exact H1|]. eapply ms_step; [apply Hone; exact Hg1|].
+  apply moves_one. apply move_set_job. intros y _. right. apply JUncache.
+Qed.
+
+Lemma moves_do_feeds : forall fs k fa io s, moves s (fst (fst (do_feeds fs k fa io s))).
+Proof.
+  induction fs as [|[[j n] sl] r IH]; intros k fa io s; cbn [do_feeds]; [apply ms_refl|].
+  pose proof (moves_feed_tasks (Z.to_nat n) 0 j k fa io s) as H0.
+  destruct (feed_tasks (Z.to_nat n) 0 j k fa io s) as [[s1 k1] stopped]. cbn [fst] in H0.
+  destruct stopped; [exact H0|].
+  assert (H1 : moves s1 (fst (if sl then
+                               match get_job s1 j with
+                               | Some x => (set_job s1 j (fun x0 => fst (set_length x0 n)), snd (set_length x n))
+                               | None => (s1, false)
+                               end else (s1, false)))).
+  { destruct sl; [|apply ms_refl]. destruct (get_job s1 j) as [x|] eqn:Hg; [|apply ms_refl].
+    cbn [fst]. apply moves_one. apply move_set_job. intros y Hy. right. apply JLen. }
+  destruct (if sl then
+              match get_job s1 j with
+              | Some x => (set_job s1 j (fun x0 => fst (set_length x0 n)), snd (set_length x n))
+              | None => (s1, false)
+              end else (s1, false)) as [s2 e]. cbn [fst] in H1.
+  destruct e; cbn [fst]; [eapply moves_trans; eauto|].
+  eapply moves_trans; [exact H0|]. eapply moves_trans; [exact H1|]. apply IH.
+Qed.
+
+Lemma moves_do_feed s fa io : moves s (fst (do_feed s fa io)).
+Proof.
+  unfold do_feed. pose proof (moves_do_feeds (feeds s) 0 fa io s) as H.
+  destruct (do_feeds (feeds s) 0 fa io s) as [[s1 rest] r]. cbn [fst] in *.
+  eapply moves_snoc; [exact H|msame].
+Qed.
+
+(* ---- user calls *)
+Lemma moves_shrink_loop : forall ws i n s, moves s (fst (shrink_loop ws i n s)).
+Proof.
+  induction ws as [|p r IH]; intros i n s; cbn [shrink_loop fst]; [apply ms_refl|].
+  match goal with |- moves s (fst (if ?c then (?s', _) else _)) =>
+    assert (Hs : moves s s');
+    [|destruct c; cbn [fst]; [exact Hs|eapply moves_trans; [exact Hs|apply IH]]]
+  end.
+  eapply moves_last; [apply move_deliver|].
+  eapply moves_last; [apply move_set_proc; intros q c H; exact H|].
+  eapply moves_last; [msame|].
+  apply moves_one. msame.
+Qed.
+
+Lemma moves_do_next s j : moves s (fst (do_next s j)).
+Proof.
+  unfold do_next. destruct (get_job s j) as [x|] eqn:Hg; [|apply ms_refl].
+  destruct (is_imap x) eqn:Hk; cbn [negb]; [|apply ms_refl].
+  destruct (items x) as [|p r] eqn:Hit; cbn [fst].
+  - destruct (okey_eqb (Some (index x)) (ilength x)); cbn [fst]; [|apply ms_refl].
+    apply moves_one. apply move_set_job. intros y Hy. assert (y = x) by congruence. subst y.
+    right. apply JNext; auto.
+  - apply moves_one. apply move_set_job. intros y Hy. assert (y = x) by congruence. subst y.
+    right. apply JNext; auto.
+Qed.
+
+(* ---------------------------------------------------------------- every event *)
+Definition ev_ok (s : pool) (e : event) : Prop :=
+  match e with
+  | EAdvance dt => okdt dt
+  | EAck j i p => forall x, get_job s j = Some x -> kind x = KApply -> okack (wlist s) x p
+  | _ => True
+  end.
+
+Theorem step_moves s e : ev_ok s e -> moves s (fst (step s e)).
+Proof.
+  intros Hok. unfold step.
+  eapply ms_step; [apply (move_same s (with_sigs s [])); [reflexivity|repeat split]|].
+  set (s0 := with_sigs s []).
+  destruct e.
+  - apply moves_do_apply.
+  - apply moves_do_map.
+  - apply moves_do_imap; discriminate.
+  - apply moves_do_imap; discriminate.
+  - apply moves_do_feed.
+  - apply moves_do_ack. exact Hok.
+  - apply moves_do_ready.
+  - cbn [fst]. apply moves_one. msame.
+  - apply ms_refl.
+  - cbn [fst]. apply moves_one. apply move_deliver.
+  - apply ms_refl.
+  - cbn [fst]. apply moves_one. apply move_set_proc. intros q c H. rewrite H. exact H.
+  - apply moves_do_tick.
+  - cbn [fst]. eapply moves_snoc; [apply moves_do_scan|msame].
+  - destruct (negb (scanner s0)); cbn [fst]; [apply ms_refl|]. apply moves_one. msame.
+  - destruct (scan_todo s0) as [|j r]; cbn [fst]; [apply ms_refl|].
+    eapply moves_snoc; [apply moves_scan_job|msame].
+  - cbn [fst]. apply moves_one. msame.
+  - cbn [fst]. apply moves_one. eapply MAdvance; try reflexivity. exact Hok.
+  - cbn [fst]. apply moves_one. apply move_set_job. intros y _. right. apply JUncache.
+  - unfold do_terminate_job. destruct (in_pool s0 p); cbn [fst]; [|apply ms_refl].
+    eapply ms_step; [apply move_deliver|]. apply moves_one. apply move_set_proc. intros q c H. exact H.
+  - cbn [fst]. apply moves_one. msame.
+  - unfold do_shrink. destruct (inactive s0) as [|w ws] eqn:Ei; [apply ms_refl|].
+    destruct (LaxSem.value (sem s0) <? Z.min (Z.max n 1) (Z.of_nat (length (w :: ws))));
+      [apply ms_refl|]. apply moves_shrink_loop.
+  - cbn [fst]. apply moves_one. apply move_do_close.
+  - apply moves_do_next.
+  - apply moves_do_tick_close.
+  - apply moves_do_join_shutdown.
+  - unfold do_apply_q. pose proof (moves_do_apply s0 soft hard lost slot) as H.
+    destruct (do_apply s0 soft hard lost slot) as [s1 r]. cbn [fst] in H.
+    destruct r; cbn [fst]; try exact H. eapply moves_snoc; [exact H|msame].
+  - unfold do_apply_unsendable. destruct (negb (pstate s0 =? 0)); [apply ms_refl|].
+    destruct (_ && _); apply ms_refl.
+Qed.
+
 End Moves.
+
+Arguments ms_refl {okdt okack} s.
+
+(* ================================================================ from moves to histories *)
+Lemma moves_inv okdt okack (I : pool -> Prop) :
+  (forall s s', move okdt okack s s' -> I s -> I s') ->
+  forall s s', moves okdt okack s s' -> I s -> I s'.
+Proof. intros Hm s s' H. induction H; intros Hi; [exact Hi|]. apply IHmoves. eapply Hm; eauto. Qed.
+
+(* the history satisfies the event guard in the state in which each event is handled *)
+Definition hist_ok okdt okack (c : config) (tr : list event) : Prop :=
+  forall tr1 e tr2, tr = tr1 ++ e :: tr2 -> ev_ok okdt okack (run c tr1) e.
+
+Lemma run_snoc c tr e : run c (tr ++ [e]) = fst (step (run c tr) e).
+Proof. unfold run. rewrite fold_left_app. reflexivity. Qed.
+
+Lemma hist_ok_snoc okdt okack c tr e :
+  hist_ok okdt okack c (tr ++ [e]) -> hist_ok okdt okack c tr /\ ev_ok okdt okack (run c tr) e.
+Proof.
+  intros H. split.
+  - intros tr1 e1 tr2 E. apply (H tr1 e1 (tr2 ++ [e])). rewrite E, <- app_assoc. reflexivity.
+  - apply (H tr e []). reflexivity.
+Qed.
+
+Theorem run_inv okdt okack (I : pool -> Prop) :
+  (forall s s', move okdt okack s s' -> I s -> I s') ->
+  forall c, I (init c) -> forall tr, hist_ok okdt okack c tr -> I (run c tr).
+Proof.
+  intros Hm c H0 tr. induction tr as [|e tr IH] using rev_ind; intros Hok; [exact H0|].
+  destruct (hist_ok_snoc _ _ _ _ _ Hok) as [Hok1 He].
+  rewrite run_snoc. eapply moves_inv; [exact Hm|apply step_moves; exact He|apply IH; exact Hok1].
+Qed.
+
+Lemma jobs_init c : jobs (init c) = [].
+Proof.
+  unfold init.
+  assert (H : forall n i s, jobs s = [] -> jobs (start_n n i s) = []).
+  { induction n as [|n IH]; intros i s Hs; cbn; [exact Hs|]. apply IH. exact Hs. }
+  apply H. reflexivity.
+Qed.
+
+Lemma get_job_In s j x : get_job s j = Some x -> In x (jobs s).
+Proof. intros H. destruct (get_job_nth _ _ _ H) as [_ Hn]. eapply nth_error_In; eauto. Qed.
+
+(* every job-level move is monotone in the sense of PoolJobs *)
+Lemma jmove_jmono okdt okack s x y : jmove okdt okack s x y -> jmono x y.
+Proof.
+  intros H. destruct H.
+  - apply apply_ack_mono.
+  - apply map_ack_mono. congruence.
+  - apply imap_ack_mono. apply is_imap_not_apply. assumption.
+  - apply job_set_mono.
+  - eapply jmono_trans; [apply apply_set_mono|apply j_add_tmo_mono].
+  - apply j_add_tmo_mono.
+  - apply j_uncache_mono.
+  - apply set_length_mono.
+  - apply mk_imap_mono; auto. apply is_imap_not_apply. assumption.
+Qed.
+
+(* ================================================================ C05: never early *)
+Definition advances_nonneg (tr : list event) : Prop :=
+  Forall (fun e => match e with EAdvance dt => 0 <= dt | _ => True end) tr.
+
+Definition eff (th : option Z) (x : job) : option Z :=
+  match hard x with Some v => Some v | None => th end.
+
+(* n = the clock, th = the pool's default hard limit *)
+Definition TLj (n : Z) (th : option Z) (x : job) : Prop :=
+  kind x = KApply ->
+  (time_accepted x <> None -> accepted x = true)
+  /\ (forall l, value x = Some (PTimeLimit l) ->
+        incache x = false
+        /\ exists t lim, time_accepted x = Some t /\ eff th x = Some lim /\ lim <> 0 /\ t <> 0
+                         /\ l = hard x /\ t + lim <= n).
+
+Definition TL (s : pool) : Prop := Forall (TLj (now s) (t_hard s)) (jobs s).
+
+Lemma TLj_now n n' th x : n <= n' -> TLj n th x -> TLj n' th x.
+Proof.
+  intros Hle H Hk. destruct (H Hk) as [A B]. split; [exact A|].
+  intros l Hv. destruct (B l Hv) as (C & t & lim & D1 & D2 & D3 & D4 & D5 & D6).
+  split; [exact C|]. exists t, lim. repeat split; auto. lia.
+Qed.
+
+Lemma TLj_jmove okdt okack s x y :
+  TLj (now s) (t_hard s) x -> jmove okdt okack s x y -> TLj (now s) (t_hard s) y.
+Proof.
+  intros H Hm Hky.
+  assert (Hk : kind x = KApply) by (rewrite <- (jm_kind _ _ (jmove_jmono _ _ _ _ _ Hm)); exact Hky).
+  destruct (H Hk) as [A B]. clear Hky. destruct Hm.
+  - (* acknowledged *) split; [reflexivity|]. cbn. intros l Hv. destruct (B l Hv) as [C _]. congruence.
+  - congruence.
+  - unfold is_imap in *. rewrite Hk in *. discriminate.
+  - (* a result that is not a time limit *)
+    unfold job_set. rewrite Hk. cbn [fst]. unfold apply_set.
+    destruct (ready x); [split; assumption|]. cbn. split; [exact A|].
+    intros l Hv. inversion Hv. exfalso. eapply H1. eassumption.
+  - (* the hard limit *)
+    unfold apply_set. rewrite H1. cbn. split; [exact A|].
+    intros l Hv. inversion Hv; subst l. rewrite A by congruence. split; [reflexivity|].
+    unfold timed_out in H3. change (eff_hard s x) with (eff (t_hard s) x) in H3.
+    destruct (eff (t_hard s) x) as [lim|] eqn:El; [|discriminate].
+    exists t, lim. unfold eff in *. cbn. repeat split; auto; lia.
+  - exact (conj A B).
+  - cbn. split; [exact A|]. intros l Hv. destruct (B l Hv) as [C D]. split; [reflexivity|exact D].
+  - unfold set_length, is_imap. rewrite Hk. cbn. split; assumption.
+  - unfold is_imap in *. rewrite Hk in *. discriminate.
+Qed.
+
+Lemma TLj_set_lost n th x m : TLj n th x -> TLj n th (j_set_lost x m).
+Proof. intros H. exact H. Qed.
+
+Lemma TLj_fresh n th x : fresh x -> TLj n th x.
+Proof.
+  intros (Hv & _ & _ & _ & Ht & _) _. split; [congruence|]. intros l H. congruence.
+Qed.
+
+Lemma TL_move s s' : move (fun dt => 0 <= dt) (fun _ _ _ => True) s s' -> TL s -> TL s'.
+Proof.
+  unfold TL. intros Hm H. destruct Hm as [He Hj|x He Hj Hf|Hj Hw Hn Ht _|q Hj Hn Ht _ _|dt Hdt Hj _ _ Ht Hn|_ Hn Ht _ Hj].
+  - destruct He as (_ & _ & Hn & Ht). rewrite Hn, Ht.
+    eapply Forall_Forall2; [exact Hj|exact H|]. intros x y Hx [->|Hxy]; [exact Hx|].
+    eapply TLj_jmove; eauto.
+  - destruct He as (_ & _ & Hn & Ht). rewrite Hn, Ht, Hj. apply Forall_app. split; [exact H|].
+    constructor; [apply TLj_fresh; exact Hf|constructor].
+  - rewrite Hj, Hn, Ht. exact H.
+  - rewrite Hj, Hn, Ht. exact H.
+  - rewrite Hj, Hn, Ht. eapply Forall_impl; [|exact H]. intros x. apply TLj_now. lia.
+  - rewrite Hn, Ht. eapply Forall_Forall2; [exact Hj|exact H|]. intros x y Hx Hr.
+    destruct Hr as [_|c Hc Hr|p code _ _ _ _ _].
+    + exact Hx.
+    + eapply (TLj_jmove (fun dt => 0 <= dt) (fun _ _ _ => True)); [exact Hx|].
+      apply JSet; [exact Hc|intros; discriminate].
+    + exact Hx.
+Qed.
+
+Lemma advances_hist_ok c tr okack :
+  advances_nonneg tr -> (forall s e, (forall dt, e <> EAdvance dt) -> ev_ok (fun dt => 0 <= dt) okack s e) ->
+  hist_ok (fun dt => 0 <= dt) okack c tr.
+Proof.
+  intros Ha Hother tr1 e tr2 E. unfold advances_nonneg in Ha. rewrite Forall_forall in Ha.
+  assert (Hin : In e tr) by (rewrite E; apply in_or_app; right; left; reflexivity).
+  specialize (Ha e Hin). destruct e; try (apply Hother; intros; discriminate). exact Ha.
+Qed.
+
+Theorem TL_reachable c tr : advances_nonneg tr -> TL (run c tr).
+Proof.
+  intros Ha. apply (run_inv (fun dt => 0 <= dt) (fun _ _ _ => True)).
+  - apply TL_move.
+  - unfold TL. rewrite jobs_init. constructor.
+  - apply advances_hist_ok; [exact Ha|]. intros s e He. destruct e; cbn; auto. exfalso. eapply He. reflexivity.
+Qed.
+
+(* C05, history level: a job reported as timed out had been running for (at least) its
+   effective hard limit, in every reachable state of every history whose clock steps are
+   not negative *)
+Theorem timed_out_was_due c tr j x l :
+  advances_nonneg tr ->
+  get_job (run c tr) j = Some x -> kind x = KApply -> value x = Some (PTimeLimit l) ->
+  exists t lim, time_accepted x = Some t /\ eff_hard (run c tr) x = Some lim
+                /\ lim <> 0 /\ t <> 0 /\ l = hard x /\ t + lim <= now (run c tr).
+Proof.
+  intros Ha Hg Hk Hv. pose proof (TL_reachable c tr Ha) as H. unfold TL in H.
+  rewrite Forall_forall in H. specialize (H x (get_job_In _ _ _ Hg) Hk).
+  destruct H as [_ B]. destruct (B l Hv) as (_ & t & lim & D). exists t, lim. exact D.
+Qed.
+
+Definition h05_cfg := mkcfg 1 None (Some 5) None (Some 5) 1 false false.
+Definition h05_tr : list event :=
+  [EApply None None None None; EAck 0 None 0; EAdvance 5; EScan true; ETick;
+   EApply None None None None; EAck 1 None 1; EReady 1 None true 42].
+
+Example timed_out_was_due_witness :
+  advances_nonneg h05_tr
+  /\ exists x, get_job (run h05_cfg h05_tr) 0 = Some x /\ kind x = KApply
+               /\ value x = Some (PTimeLimit (Some 5)) /\ time_accepted x = Some 1000
+               /\ now (run h05_cfg h05_tr) = 1005.
+Proof.
+  split; [repeat constructor|]. eexists. vm_compute. repeat split.
+Qed.
